@@ -1263,6 +1263,11 @@ class H2Stream:
             )
         ]
 
+        # An empty header list encodes to an empty block: it is still sent,
+        # as one frame with an empty payload.
+        if not header_blocks:
+            header_blocks = [b'']
+
         frames = []
         first_frame.data = header_blocks[0]
         frames.append(first_frame)
